@@ -403,6 +403,7 @@ pub fn run(ctx: &Ctx) -> i32 {
         acc = acc.merge(a);
         bounds["canonical_anchor_pass_max_nodes"] = json!(can_full + 1);
     }
+    wrapper_target_pass(&mut acc);
     acc.samples.truncate(0);
     for t in by[full].iter().rev().take(3) {
         acc.samples.push(json!({"tree": t.show(), "text": render_default(t)}));
@@ -415,6 +416,116 @@ pub fn run(ctx: &Ctx) -> i32 {
         assumptions: vec!["saphyr-parser's event stream defines what the document is (generator self-check against raw events)".into()],
     };
     finish(ctx, meta, acc)
+}
+
+// ---- anchor-wrapper targets whose fields are read from serde's buffered content (flatten, untagged)
+mod wt {
+    use serde::Deserialize;
+    use serde_saphyr::{ArcAnchor, RcAnchor};
+    #[derive(Debug, Deserialize)]
+    pub struct Leaf {
+        pub x: i32,
+    }
+    #[derive(Debug, Deserialize)]
+    pub struct InnerRc {
+        pub p: RcAnchor<Leaf>,
+        pub q: RcAnchor<Leaf>,
+    }
+    #[derive(Debug, Deserialize)]
+    pub struct FlatRc {
+        #[serde(flatten)]
+        pub inner: InnerRc,
+    }
+    #[derive(Debug, Deserialize)]
+    #[serde(untagged)]
+    pub enum UntaggedRc {
+        A { p: RcAnchor<Leaf>, q: RcAnchor<Leaf> },
+    }
+    #[derive(Debug, Deserialize)]
+    pub struct InnerArc {
+        pub p: ArcAnchor<Leaf>,
+        pub q: ArcAnchor<Leaf>,
+    }
+    #[derive(Debug, Deserialize)]
+    pub struct FlatArc {
+        #[serde(flatten)]
+        pub inner: InnerArc,
+    }
+    #[derive(Debug, Deserialize)]
+    pub struct PlainRc {
+        pub p: RcAnchor<Leaf>,
+        pub q: RcAnchor<Leaf>,
+    }
+}
+
+/// Every placement of anchors on a two-field mapping (on the mapping, on either value) x the mapping alone | followed
+/// by an alias of it, read into anchor wrappers around types that read their fields directly, through `flatten`
+/// and through an untagged enum: the field values must be those of the document without anchors.
+fn wrapper_target_pass(acc: &mut Acc) {
+    use serde_saphyr::{ArcAnchor, RcAnchor};
+    for mask in 0..8u8 {
+        for aliased in [false, true] {
+            for flow in [false, true] {
+                let a = |bit: u8, name: &str| if mask & bit != 0 { format!("&{} ", name) } else { String::new() };
+                let body = if flow {
+                    format!("{}{{p: {}{{x: 1}}, q: {}{{x: 2}}}}", a(1, "m"), a(2, "p"), a(4, "q"))
+                } else {
+                    // an anchored block mapping starts on the line after its anchor
+                    let head = if mask & 1 != 0 { "&m\n  ".to_string() } else { String::new() };
+                    format!("{}p: {}{{x: 1}}\n  q: {}{{x: 2}}", head, a(2, "p"), a(4, "q"))
+                };
+                let text = if aliased {
+                    if mask & 1 == 0 {
+                        continue;
+                    }
+                    format!("- {}\n- *m\n", body)
+                } else {
+                    format!("- {}\n", body)
+                };
+                let want = if aliased { "[(1, 2), (1, 2)]" } else { "[(1, 2)]" };
+                let runs: Vec<(&str, Result<Result<String, String>, String>)> = vec![
+                    ("Vec<RcAnchor<struct{p,q:RcAnchor<Leaf>}>>", guarded(|| serde_saphyr::from_str::<Vec<RcAnchor<wt::PlainRc>>>(&text).map(|v| format!("{:?}", v.iter().map(|o| (o.0.p.0.x, o.0.q.0.x)).collect::<Vec<_>>())).map_err(|e| e.to_string()))),
+                    ("Vec<RcAnchor<struct{#[flatten] struct{p,q:RcAnchor<Leaf>}}>>", guarded(|| serde_saphyr::from_str::<Vec<RcAnchor<wt::FlatRc>>>(&text).map(|v| format!("{:?}", v.iter().map(|o| (o.0.inner.p.0.x, o.0.inner.q.0.x)).collect::<Vec<_>>())).map_err(|e| e.to_string()))),
+                    ("Vec<ArcAnchor<struct{#[flatten] struct{p,q:ArcAnchor<Leaf>}}>>", guarded(|| serde_saphyr::from_str::<Vec<ArcAnchor<wt::FlatArc>>>(&text).map(|v| format!("{:?}", v.iter().map(|o| (o.0.inner.p.0.x, o.0.inner.q.0.x)).collect::<Vec<_>>())).map_err(|e| e.to_string()))),
+                    (
+                        "Vec<RcAnchor<#[untagged] enum{A{p,q:RcAnchor<Leaf>}}>>",
+                        guarded(|| {
+                            serde_saphyr::from_str::<Vec<RcAnchor<wt::UntaggedRc>>>(&text)
+                                .map(|v| {
+                                    format!(
+                                        "{:?}",
+                                        v.iter()
+                                            .map(|o| match &*o.0 {
+                                                wt::UntaggedRc::A { p, q } => (p.0.x, q.0.x),
+                                            })
+                                            .collect::<Vec<_>>()
+                                    )
+                                })
+                                .map_err(|e| e.to_string())
+                        }),
+                    ),
+                    ("Vec<struct{#[flatten] struct{p,q:RcAnchor<Leaf>}}>", guarded(|| serde_saphyr::from_str::<Vec<wt::FlatRc>>(&text).map(|v| format!("{:?}", v.iter().map(|o| (o.inner.p.0.x, o.inner.q.0.x)).collect::<Vec<_>>())).map_err(|e| e.to_string()))),
+                ];
+                for (target, r) in runs {
+                    acc.evaluations += 1;
+                    acc.execs += 1;
+                    acc.compared += 1;
+                    acc.nontrivial += 1;
+                    acc.class("anchor_wrapper_targets", 1);
+                    let key = |clause: &str| format!("{}|{:?}|{}", clause, text, target);
+                    match r {
+                        Err(p) => acc.add_violation(key("panic"), "panic", p, json!({"text": text, "target": target}), json!({})),
+                        Ok(Err(e)) => acc.add_violation(key("anchored_document_rejected"), "anchored_document_rejected", format!("{:?} into {}: the document without anchor marks / with the alias written out reads as {} but this one fails: {}", text, target, want, e.lines().next().unwrap_or("")), json!({"text": text, "target": target}), json!({})),
+                        Ok(Ok(got)) => {
+                            if got != want {
+                                acc.add_violation(key("differs_from_anchor_free_document"), "differs_from_anchor_free_document", format!("{:?} into {}: field values {} but the document without anchor marks / with the alias written out gives {}", text, target, got, want), json!({"text": text, "target": target}), json!({}));
+                            }
+                        }
+                    }
+                }
+            }
+        }
+    }
 }
 
 pub fn run_chunks(list: &[Node], f: &(impl Fn(&mut Acc, Node) + Sync)) -> Acc {
